@@ -549,6 +549,10 @@ def check(res, tier, seed):
             for c in r.get("calls") or []:
                 if c["m"] == "Probe" and (c["err"] != "" or c["ret"] != "42"):
                     vs.append("the link is not healthy %s: a later call returned (%s, %r)" % (c.get("extra"), c["ret"], c["err"]))
+                if c["m"] == "CancelledThenDeadlinePassed" and (c["err"] != c.get("extra") or c["ret"] != "0"):
+                    vs.append("a call made with a context that had been cancelled explicitly (and whose deadline passed afterwards) returned (%s, %r), expected the zero value and the context's error %r" % (c["ret"], c["err"], c.get("extra")))
+                if c["m"] == "CancelledPointerResult" and (c["err"] != "context canceled" or c.get("extra") != "true"):
+                    vs.append("a cancelled call of a function with a pointer result returned (%s, %r): expected the zero result (a nil pointer) and the context's error" % (c["ret"], c["err"]))
             if vs:
                 monitor_hits += 1
                 res.violation("racestress", "implementation violates C04: %s" % vs[0], dict(kind="sys", family="racestress", seed=r["seed"], all=vs[:6]))
